@@ -288,7 +288,8 @@ def apply_acl_diff(diff, rules):
     for (op, row, children, d_match) in diff:
         (match, children_rules) = match_row_to_acl(row, rules)
         if match:
-            if op == Op.REMOVED and all(match["attrs"]["cant_delete"]):
+            if op in (Op.REMOVED, Op.MOVED) and all(match["attrs"]["cant_delete"]):
+                # a line that must not be deleted can not be moved either: moving is delete + re-create
                 op = Op.AFFECTED
             children = apply_acl_diff(children, children_rules)
             passed.append((op, row, children, d_match))
